@@ -1,20 +1,33 @@
 #!/bin/bash
 # Semantics-preserving edits: no check may print a VIOLATION line (exit 0, or exit 2 = undecided, are both fine).
+# usage: selftest/run_benign.sh [glob]    (default: all of selftest/benign/*.patch)
 cd "$(dirname "$0")/.."; VERIF="$(pwd)"; BASE="${TMPDIR:-/var/tmp}"
 export GOFLAGS=-mod=mod GOPROXY=off GOSUMDB=off GOTOOLCHAIN=local
+PAR="${VERIF_SELFTEST_PAR:-4}"
+GLOB="${1:-*}"
 # one snapshot of /repo's working tree at start, so that later edits of /repo do not leak into the run
-SNAP=$(mktemp -d "$BASE/benign-snap-XXXXXX"); rsync -a --exclude .git /repo/ "$SNAP"/; trap 'rm -rf "$SNAP"' EXIT
-bad=0
-for patch in "$VERIF"/selftest/benign/*.patch; do
-  S=$(mktemp -d "$BASE/benign-XXXXXX"); rsync -a "$SNAP"/ "$S"/
-  (cd "$S" && patch -p1 -s --no-backup-if-mismatch < "$patch") || { echo "BENIGN skipped: $(basename $patch)"; rm -rf "$S"; continue; }
+WORK=$(mktemp -d "$BASE/benign-XXXXXX"); trap 'rm -rf "$WORK"' EXIT
+SNAP="$WORK/snap"; mkdir -p "$SNAP"; rsync -a --exclude .git /repo/ "$SNAP"/
+PROPS=$(python3 -c "import json; print(' '.join(c['property_id'] for c in json.load(open('$VERIF/MANIFEST.json'))['checks']))")
+export VERIF SNAP WORK PROPS
+one() {
+  patch="$1"
+  S=$(mktemp -d "$WORK/b-XXXXXX"); rsync -a "$SNAP"/ "$S"/
+  (cd "$S" && patch -p1 -s --no-backup-if-mismatch < "$patch") || { echo "BENIGN skipped: $(basename $patch)"; rm -rf "$S"; return; }
   (cd "$S" && go test -vet=off -count=1 ./varlink/... ./cmd/varlink-go-interface-generator/... >/dev/null 2>&1) || echo "BENIGN WARNING: suite fails with $(basename $patch)"
-  res=""
-  for P in $(python3 -c "import json; print(' '.join(c['property_id'] for c in json.load(open('$VERIF/MANIFEST.json'))['checks']))"); do
+  res=""; alarm=0
+  for P in $PROPS; do
     out=$(VERIF_OUT="$S.out" "$VERIF/check" "$P" --repo "$S" 2>&1); rc=$?
-    if echo "$out" | grep -q "^VIOLATION"; then res="$res $P:ALARM"; bad=$((bad+1)); echo "$out" | grep "^VIOLATION\|UNDECIDED " | head -3; elif [ $rc -eq 2 ]; then res="$res $P:undecided"; fi
+    if echo "$out" | grep -q "^VIOLATION"; then
+      res="$res $P:ALARM"; alarm=1
+      echo "$out" | grep "^VIOLATION\|UNDECIDED " | head -3 | sed "s/^/    [$(basename $patch) $P] /"
+    elif [ $rc -eq 2 ]; then res="$res $P:undecided"; fi
   done
-  echo "BENIGN $(basename $patch):${res:- all checks silent (exit 0)}"
+  if [ $alarm -eq 1 ]; then echo "BENIGN ALARM $(basename $patch):$res"; else echo "BENIGN $(basename $patch):${res:- all checks silent (exit 0)}"; fi
   rm -rf "$S" "$S.out"
-done
-echo "BENIGN summary: false alarms=$bad"; [ $bad -eq 0 ]
+}
+export -f one
+ls "$VERIF"/selftest/benign/$GLOB.patch | xargs -P "$PAR" -I{} bash -c 'one "{}"' > "$WORK/log" 2>&1
+cat "$WORK/log"
+bad=$(grep -c "^BENIGN ALARM" "$WORK/log")
+echo "BENIGN summary: patches=$(grep -c '^BENIGN ' "$WORK/log") false alarms=$bad"; [ "$bad" -eq 0 ]
